@@ -38,11 +38,20 @@ Definition numeric_cmp (a b : numeric) : option (option comparison) :=
           | Some Eq => None
           | o => o
           end)
-  else match num_as_unitset b (nunit a) with
-       | CSome scaled => Some (number_cmp (nval a) scaled)
-       | CNone => Some None
-       | CUnmodelled => None
-       end.
+  else
+    (* different convertible units: always convert towards the smaller unit, whichever
+       side it is on (fix "comparing numbers with different convertible units is symmetric") *)
+    match us_scale_to (nunit b) (nunit a) with
+    | SSome scale =>
+        if fge scale f_one then Some (number_cmp (nval a) (fmul (nval b) scale))
+        else match us_scale_to (nunit a) (nunit b) with
+             | SSome back => Some (number_cmp (fmul (nval a) back) (nval b))
+             | SNone => Some None
+             | SUnmodelled => None
+             end
+    | SNone => Some None
+    | SUnmodelled => None
+    end.
 
 (* impl PartialEq for Numeric *)
 Definition numeric_eq (a b : numeric) : option bool :=
